@@ -54,7 +54,7 @@ theorem slot_modW (u : Nat) (f : Watcher → Watcher) : Pres (SlotView P) (modW 
 theorem slotLeaf : Leaf (SlotView P) where
   emit := fun o => by slot_same
   emitEv := fun w t p x => by unfold emitEv; slot_same
-  setK := fun k => by unfold setK; slot_same
+  runK := fun f _ => by apply slotView_same; intro s; exact ⟨rfl, rfl⟩
   setStatus := fun u st => slot_modW _ _
   trySetNp := fun u n => by
     apply slotView_same; intro s; unfold trySetNp; simp only
